@@ -9,10 +9,9 @@ CONSTANTS
   ResetOnPartialAt = TRUE
   ResetOnNumericPartials = TRUE
   EarlyChecksOriginal = TRUE
-  ResetAfterWalk = FALSE
-  MaxHist = 40
+  ResetAfterWalk = TRUE
+  MaxHist = 0
 VIEW View
 INVARIANT AllProperties
-INVARIANT ExportState
 PROPERTY OperandsUnchanged
 CHECK_DEADLOCK FALSE
